@@ -618,6 +618,20 @@ func (bc *blobCase) alter(class string, rng *prng.R) (*alteration, bool) {
 	return nil, false
 }
 
+// knownFatal: the served bytes end in a zstd:chunked footer that announces a compressed TOC
+// far larger than the blob. estargz.parseTOC / the db store allocate that many bytes
+// before reading ("fatal error: out of memory" kills the process, or gigabytes are zeroed):
+// a known crash in C04's territory. Such cases are skipped (recorded as inconclusive);
+// the on-disk journal stays as the safety net for crashes that are not predicted.
+func knownFatal(a *alteration) bool {
+	n := len(a.Blob)
+	if n < 48 || string(a.Blob[n-8:]) != "GnUlInUx" {
+		return false
+	}
+	cl := binary.LittleEndian.Uint64(a.Blob[n-32 : n-24])
+	return cl > uint64(n)+(64<<20)
+}
+
 func sortedChunkKeys(cs []chunkRef) []string {
 	var res []string
 	for _, c := range cs {
